@@ -77,7 +77,7 @@ def tag_docs(rng, tag, n):
     for k in range(n):
         variant = ['empty', 'minimal', 'rich', 'nested-message-names', 'body-first', 'extra-envelope', 'attrs',
                    'foreign-ns-message-name', 'root-default-ns', 'doctype', 'noise', 'duplicate-story-ids',
-                   'root-named-like-a-message', 'bare-message-root'][k % 14]
+                   'root-named-like-a-message', 'bare-message-root', 'quoted-mos-document'][k % 15]
         m = E(tag)
         if tag == 'roElementAction':
             m.set('operation', 'DELETE')
@@ -118,6 +118,19 @@ def tag_docs(rng, tag, n):
             other = rng.choice([t for t in MESSAGE_TAGS if t != tag])
             doc = B.to_text(B.envelope(7, m, **env), pretty=False)
             doc = '<%s>' % other + doc[len('<mos>'):-len('</mos>')] + '</%s>' % other
+        if variant == 'quoted-mos-document':
+            # a root that is not called mos (a wrapper, an archive record) whose payload QUOTES another MOS document
+            # below the top level: the class is still that of the top-level message element (or none)
+            other = rng.choice([t for t in MESSAGE_TAGS if t not in (tag, 'roElementAction')])
+            quoted = E('mos', None, E('mosID', 'Q'), E('messageID', '99'), E(other, None, E('roID', 'QUOTED')))
+            root_ = B.envelope(7, m, extra=[E('auditTrail', None, quoted)] if rng.random() < 0.6 else ())
+            if rng.random() < 0.4:
+                m.append(E('mosExternalMetadata', None, E('mosPayload', None, B.clone(quoted))))
+            root_.tag = rng.choice(['mosMessage', 'record', 'soapBody'])
+            if rng.random() < 0.3:
+                # ... or the wrapper holds nothing but the quotation: not a message at all
+                root_ = E('archive', None, E('entry', None, quoted))
+            doc = B.to_text(root_, pretty=rng.random() < 0.5)
         if variant == 'bare-message-root':
             # the message element without any envelope: a document whose root has no message element in it
             doc = B.to_text(m, pretty=rng.random() < 0.5)
@@ -292,7 +305,7 @@ def run(s):
     tmpdir = tempfile.mkdtemp(prefix='verif-c08-')
     try:
         idx = 0
-        per_tag = 14 if q else 476
+        per_tag = 15 if q else 480
         for tag in MESSAGE_TAGS:
             rng = s.rng('tag', tag)
             for variant, doc in tag_docs(rng, tag, per_tag):
